@@ -54,6 +54,7 @@ func c05Vars() map[string]mj.Recipe {
 		"chs":   {T: "chan string", Ss: []string{"u", ""}},
 		"rg":    {T: "ranger", Ss: []string{"r0", "r1"}},
 		"rp":    {T: "ranger-plain", Ss: []string{"s0", "", "s2"}},
+		"stk":   {T: "stack-ranger", Ss: []string{"bottom", "middle", "top"}},
 		"e_xs":  mj.RInts(),
 		"e_any": mj.RAny(),
 		"e_m":   {T: "map[string]int"},
@@ -91,7 +92,7 @@ var c05Subjects = []c05Subject{
 	{"xs", true, 3, false, false, false}, {"x1", true, 1, false, false, false}, {"ss", true, 3, false, false, false}, {"anys", true, 8, false, false, false}, {"any2", true, 2, false, false, false},
 	{"arr", true, 2, false, false, false}, {"sarr", true, 2, false, false, false}, {"parr", true, 2, false, false, false},
 	{"m1", true, 1, false, false, false}, {"mN", true, 3, true, false, false}, {"mi", true, 1, false, false, false}, {"miN", true, 2, true, false, false}, {"many", true, 2, true, false, false},
-	{"ch", false, 3, false, false, true}, {"chs", false, 2, false, false, true}, {"rg", true, 2, false, false, true}, {"rp", false, 3, false, false, true},
+	{"ch", false, 3, false, false, true}, {"chs", false, 2, false, false, true}, {"rg", true, 2, false, false, true}, {"rp", false, 3, false, false, true}, {"stk", false, 3, false, false, true},
 	{"e_xs", true, 0, false, false, false}, {"e_any", true, 0, false, false, false}, {"e_m", true, 0, false, false, false}, {"e_ch", false, 0, false, false, false}, {"e_rg", true, 0, false, false, false}, {"e_rp", false, 0, false, false, false}, {"e_arr", true, 0, false, false, false},
 	{"nilxs", true, 0, false, false, false}, {"nilm", true, 0, false, false, false},
 	{"n_int", false, 0, false, true, false}, {"n_str", false, 0, false, true, false}, {"n_nil", false, 0, false, true, false}, {"n_ptr", false, 0, false, true, false},
